@@ -186,20 +186,20 @@ def to_index(df, idcols, lay, rnd, info):
         if lay.get("perm_cols"):
             rnd.shuffle(cols)
         df = df.set_index(cols)
+        info["indexed"] = True
     elif how == "unnamed" and idcols:
         k = lay.get("index_col", 0) % len(idcols)
         c = idcols[k]
         df = df.set_index(c)
         df.index.name = None
         info["unnamed_col"] = k
+        info["indexed"] = True
     return df
 
 
-def csv_roundtrip(df, lay):
-    idx = df.index
-    default = (isinstance(idx, pd.RangeIndex) and idx.name is None and idx.start == 0 and idx.step == 1
-               and not isinstance(idx, pd.MultiIndex))
-    keep_index = not default
+def csv_roundtrip(df, lay, info):
+    # the index is written only when it carries a dimension; leftover row numbers are not data
+    keep_index = bool(info.get("indexed"))
     text = df.to_csv(index=keep_index)
     back = pd.read_csv(io.StringIO(text))
     return back
@@ -229,6 +229,8 @@ def run_case(spec, lines, out):
         arr = impl.get("$300", FlodymArray)
     except Exception:
         return
+    if spec["id"] % 2 == 1 and arr.values.ndim >= 2:
+        arr.values = np.asfortranarray(arr.values)        # same entries, another memory order
     nxt = 301
     for op in spec["ops"]:
         if op["op"] == "todf":
@@ -250,7 +252,7 @@ def run_case(spec, lines, out):
             valcols = [c for c in df.columns if c not in idcols]
             df = to_index(df, idcols, lay, rnd, info)
             if lay.get("csv"):
-                df = csv_roundtrip(df, lay)
+                df = csv_roundtrip(df, lay, info)
             ser = ser_df(df)
         except Exception as e:          # the harness could not build this layout: skip the op
             emit(f"note skipped {type(e).__name__}", "ok")
